@@ -51,6 +51,10 @@ def handleStruct (st : St) (op : String) (j : Json) : Option (D (St × Json)) :=
     match k with
     | "split" => return (st, ok (Json.bool (splitGuard S d (← nat (← field j "pos")))))
     | "join" => return (st, ok (Json.bool (joinGuard S d (← nat (← field j "pos")) && textStableC S)))
+    | "wrap" =>
+      let ws ← wrappersOf (← field j "wrappers")
+      return (st, ok (Json.bool (wrapGuard S d (← nat (← field j "from")) (← nat (← field j "to"))
+        (← nat (← field j "depth")) ws && wrapBuilds S ws)))
     | _ => throw s!"bad structGuard kind {k}"
   -- the remaining helpers (PM/Structure2.lean); `{"err":"raises"}` = the model says the code raises
   | "canJoin" => some do
